@@ -26,26 +26,49 @@ theorem isPrint_ge {c : Nat} (h : isPrint c = true) : 32 ≤ c := by
     omega
   · omega
 
+/-- one `\uD8xx\uDCxx` pair -/
+theorem jStringAux_pair (f hi lo : Nat) (X : Str) (h1 : 0xD800 ≤ hi) (h2 : hi < 0xDC00) (h3 : 0xDC00 ≤ lo)
+    (h4 : lo < 0xE000) :
+    jStringAux (f + 1) (92 :: 117 :: hexDigit (hi / 4096) :: hexDigit (hi / 256 % 16) :: hexDigit (hi / 16 % 16) ::
+      hexDigit (hi % 16) :: 92 :: 117 :: hexDigit (lo / 4096) :: hexDigit (lo / 256 % 16) :: hexDigit (lo / 16 % 16) ::
+      hexDigit (lo % 16) :: X)
+    = (match jStringAux f X with
+       | some (s, rest) => some (((hi - 0xD800) * 1024 + (lo - 0xDC00) + 0x10000) :: s, rest)
+       | none => none) := by
+  have c1 : (decide (0xD800 ≤ hi) && decide (hi < 0xE000)) = true := by
+    simp only [Bool.and_eq_true, decide_eq_true_eq]; omega
+  have c2 : (decide (hi < 0xDC00) && decide (0xDC00 ≤ lo) && decide (lo < 0xE000)) = true := by
+    simp only [Bool.and_eq_true, decide_eq_true_eq]; omega
+  rw [jStringAux]
+  simp only [show ((92 : Nat) == 34) = false from by decide, show ¬ ((92 : Nat) < 32) from by decide,
+    show ((92 : Nat) == 92) = true from by decide, show ((117 : Nat) == 34) = false from by decide,
+    show ((117 : Nat) == 92) = false from by decide, show ((117 : Nat) == 47) = false from by decide,
+    show ((117 : Nat) == 98) = false from by decide, show ((117 : Nat) == 102) = false from by decide,
+    show ((117 : Nat) == 110) = false from by decide, show ((117 : Nat) == 114) = false from by decide,
+    show ((117 : Nat) == 116) = false from by decide, show ((117 : Nat) == 117) = true from by decide,
+    Bool.false_eq_true, if_false, if_true, hex4_hexDigits hi (by omega), hex4_hexDigits lo (by omega), c1, c2]
+  cases jStringAux f X with
+  | none => rfl
+  | some p => cases p; rfl
+
 theorem jStringAux_quoteBody : ∀ (s : Str) (fuel : Nat) (rest : Str), wfStr s = true →
-    s.any goOnlyEscape = false → (quoteBody s).length < fuel →
+    (quoteBody s).length < fuel →
     jStringAux fuel (quoteBody s ++ 34 :: rest) = some (s, rest)
-  | [], fuel, rest, _, _, hf => by
+  | [], fuel, rest, _, hf => by
     cases fuel with
     | zero => simp [quoteBody] at hf
     | succ f => simp [quoteBody, jStringAux]
-  | c :: r, fuel, rest, hw, hg, hf => by
+  | c :: r, fuel, rest, hw, hf => by
     simp only [wfStr, List.all_cons, Bool.and_eq_true] at hw
-    simp only [List.any_cons, Bool.or_eq_false_iff] at hg
     have hlen : (quoteBody (c :: r)).length = (quoteChar c).length + (quoteBody r).length := by
       simp [quoteBody]
     cases fuel with
     | zero => omega
     | succ f =>
       have ih : ∀ f', (quoteBody r).length < f' → jStringAux f' (quoteBody r ++ 34 :: rest) = some (r, rest) :=
-        fun f' hf' => jStringAux_quoteBody r f' rest (by simpa [wfStr] using hw.2) hg.2 hf'
+        fun f' hf' => jStringAux_quoteBody r f' rest (by simpa [wfStr] using hw.2) hf'
       have hv := hw.1
       simp only [validCp, Bool.or_eq_true, Bool.and_eq_true, decide_eq_true_eq] at hv
-      have hgo := hg.1
       simp only [quoteBody, List.append_assoc]
       by_cases h34 : c = 34
       · subst h34
@@ -66,64 +89,68 @@ theorem jStringAux_quoteBody : ∀ (s : Str) (fuel : Nat) (rest : Str), wfStr s 
         have hlt : ¬ c < 32 := by omega
         simp only [hq, List.cons_append, List.nil_append, jStringAux]
         simp [h34, h92, hlt, ih f hl]
-      -- not printable: a JSON-compatible escape, because `goOnlyEscape c` is false
       have hp' : isPrint c = false := by simpa using hp
-      simp only [goOnlyEscape, hp', Bool.not_false, Bool.and_true, Bool.and_eq_false_iff,
-        bne_eq_false_iff_eq, Bool.or_eq_false_iff, beq_eq_false_iff_ne, decide_eq_false_iff_not] at hgo
-      rcases hgo with hgo | hgo
-      · rcases hgo with hgo | hgo
-        · exact absurd hgo h34
-        · exact absurd hgo h92
-      obtain ⟨⟨⟨h7, h11⟩, hctl⟩, hbig⟩ := hgo
-      have hbig' : c < 0x10000 := by omega
       by_cases h8 : c = 8
       · subst h8
-        have hq : quoteChar 8 = [92, 98] := by simp [quoteChar, hp']
+        have hq : quoteChar 8 = [92, 98] := by decide
         have hl : (quoteBody r).length < f := by rw [hq] at hlen; simp at hlen; omega
         simp only [hq, List.cons_append, List.nil_append, jStringAux]
         simp [ih f hl]
       by_cases h12 : c = 12
       · subst h12
-        have hq : quoteChar 12 = [92, 102] := by simp [quoteChar, hp']
+        have hq : quoteChar 12 = [92, 102] := by decide
         have hl : (quoteBody r).length < f := by rw [hq] at hlen; simp at hlen; omega
         simp only [hq, List.cons_append, List.nil_append, jStringAux]
         simp [ih f hl]
       by_cases h10 : c = 10
       · subst h10
-        have hq : quoteChar 10 = [92, 110] := by simp [quoteChar, hp']
+        have hq : quoteChar 10 = [92, 110] := by decide
         have hl : (quoteBody r).length < f := by rw [hq] at hlen; simp at hlen; omega
         simp only [hq, List.cons_append, List.nil_append, jStringAux]
         simp [ih f hl]
       by_cases h13 : c = 13
       · subst h13
-        have hq : quoteChar 13 = [92, 114] := by simp [quoteChar, hp']
+        have hq : quoteChar 13 = [92, 114] := by decide
         have hl : (quoteBody r).length < f := by rw [hq] at hlen; simp at hlen; omega
         simp only [hq, List.cons_append, List.nil_append, jStringAux]
         simp [ih f hl]
       by_cases h9 : c = 9
       · subst h9
-        have hq : quoteChar 9 = [92, 116] := by simp [quoteChar, hp']
+        have hq : quoteChar 9 = [92, 116] := by decide
         have hl : (quoteBody r).length < f := by rw [hq] at hlen; simp at hlen; omega
         simp only [hq, List.cons_append, List.nil_append, jStringAux]
         simp [ih f hl]
-      -- remaining: \uXXXX
-      have hnctl : ¬ (c < 32 ∨ c = 127) := by omega
-      have hq : quoteChar c = [92, 117, hexDigit (c / 4096), hexDigit (c / 256 % 16), hexDigit (c / 16 % 16),
-          hexDigit (c % 16)] := by
-        have a1 : ¬ c < 32 := by omega
-        have a2 : c ≠ 127 := by omega
-        simp [quoteChar, h34, h92, hp', h7, h8, h12, h10, h13, h9, h11, a1, a2, hbig']
-      have hl : (quoteBody r).length < f := by rw [hq] at hlen; simp at hlen; omega
-      have hsur : ¬ (0xD800 ≤ c ∧ c < 0xE000) := by omega
-      simp only [hq, List.cons_append, List.nil_append, jStringAux]
-      simp only [hex4_hexDigits c hbig']
-      simp [hsur, ih f hl]
+      by_cases hbig : c < 0x10000
+      · -- \uXXXX, not a surrogate because the string is valid
+        have hq : quoteChar c = [92, 117, hexDigit (c / 4096), hexDigit (c / 256 % 16), hexDigit (c / 16 % 16),
+            hexDigit (c % 16)] := by
+          simp [quoteChar, h34, h92, hp', h8, h12, h10, h13, h9, hbig]
+        have hl : (quoteBody r).length < f := by rw [hq] at hlen; simp at hlen; omega
+        have hsur : ¬ (0xD800 ≤ c ∧ c < 0xE000) := by omega
+        simp only [hq, List.cons_append, List.nil_append, jStringAux]
+        simp only [hex4_hexDigits c hbig]
+        simp [hsur, ih f hl]
+      · -- a UTF-16 surrogate pair
+        have hc1 : 0x10000 ≤ c := by omega
+        have hc2 : c < 0x110000 := by omega
+        generalize hhi : 0xD800 + (c - 0x10000) / 1024 = hi
+        generalize hlo : 0xDC00 + (c - 0x10000) % 1024 = lo
+        have hhi1 : 0xD800 ≤ hi ∧ hi < 0xDC00 := by omega
+        have hlo1 : 0xDC00 ≤ lo ∧ lo < 0xE000 := by omega
+        have hq : quoteChar c = [92, 117, hexDigit (hi / 4096), hexDigit (hi / 256 % 16), hexDigit (hi / 16 % 16),
+            hexDigit (hi % 16), 92, 117, hexDigit (lo / 4096), hexDigit (lo / 256 % 16), hexDigit (lo / 16 % 16),
+            hexDigit (lo % 16)] := by
+          simp [quoteChar, h34, h92, hp', h8, h12, h10, h13, h9, hbig, hhi, hlo]
+        have hl : (quoteBody r).length < f := by rw [hq] at hlen; simp at hlen; omega
+        have hcomb : (hi - 0xD800) * 1024 + (lo - 0xDC00) + 0x10000 = c := by omega
+        simp only [hq, List.cons_append, List.nil_append]
+        rw [jStringAux_pair f hi lo _ hhi1.1 hhi1.2 hlo1.1 hlo1.2, ih f hl, hcomb]
 
-theorem jString_quote (s rest : Str) (hw : wfStr s = true) (hg : s.any goOnlyEscape = false) :
+theorem jString_quote (s rest : Str) (hw : wfStr s = true) :
     jString (quoteBody s ++ 34 :: rest) = some (s, rest) :=
-  jStringAux_quoteBody s _ rest hw hg (by simp; omega)
+  jStringAux_quoteBody s _ rest hw (by simp; omega)
 
-/-! ### raw keys -/
+/-! ### raw string literals (constant names, base64 and date payloads) -/
 
 theorem jStringAux_key : ∀ (k : Str) (fuel : Nat) (rest : Str), k.any keyNeedsEscape = false → k.length < fuel →
     jStringAux fuel (k ++ 34 :: rest) = some (k, rest)
